@@ -607,8 +607,15 @@ pub fn all_slice_cases(ents: &[SliceEntry], rounds: usize, quick_subset: bool, h
         let n = e.ty.n();
         for round in 0..rounds {
             for write in [false, true] {
-                for len in 0..=n + 4 {
-                    if quick_subset && !(len == 0 || len + 1 == n || len == n || len == n + 1) {
+                // 0..=N+4 as the property states, plus a few roomy lengths (fast paths for large destinations)
+                let mut lens: Vec<usize> = (0..=n + 4).collect();
+                for extra in [n + 8, 2 * n, 2 * n + 1, 32, 33] {
+                    if !lens.contains(&extra) {
+                        lens.push(extra);
+                    }
+                }
+                for len in lens {
+                    if quick_subset && !(len == 0 || len + 1 == n || len == n || len == n + 1 || len == 2 * n + 1) {
                         continue;
                     }
                     for place in PLACES {
